@@ -418,3 +418,31 @@ fn take_from_entry(
         }
     }
 }
+
+#[cfg(feature = "verif")]
+impl TaskQueue {
+    /// Read-only copy of the queue contents (ready tasks by descending priority, prefill set).
+    #[allow(clippy::type_complexity)]
+    pub(crate) fn verif_contents(
+        &self,
+    ) -> (Vec<(Priority, Vec<TaskId>)>, Option<(Priority, Vec<TaskId>)>) {
+        let ready = self
+            .queue
+            .iter()
+            .map(|(p, ts)| {
+                (
+                    p.0,
+                    match ts {
+                        OneOrMoreTaskIds::One(t) => vec![*t],
+                        OneOrMoreTaskIds::More(ts) => ts.iter().copied().collect(),
+                    },
+                )
+            })
+            .collect();
+        let prefill = self
+            .prefill
+            .as_ref()
+            .map(|(p, ts)| (*p, ts.iter().copied().collect()));
+        (ready, prefill)
+    }
+}
